@@ -4,20 +4,29 @@ package httpp
 
 import (
 	"bufio"
-	"bytes"
+	"errors"
 	"fmt"
+	"io"
 	"net/http"
+	"net/http/httptest"
 	"net/textproto"
+	"os"
 	"sort"
 	"strings"
 	"testing"
+
+	"github.com/bluenviron/mediamtx/internal/logger"
 )
 
-// ---- C07 driver, part 2: the real dumpRequest on requests parsed by net/http -------------------
+// ---- C07 driver, part 2: the real dumpRequest / handlerLogger on requests parsed by net/http -------
 // A raw HTTP/1.x request is written with header names in arbitrary letter case, repeated credential
 // headers, near-miss names and bodies around the 10 KiB cap, parsed by http.ReadRequest (as the server
-// does) and dumped by the real dumpRequest. Secrets = the values sent under a name of the redaction set
-// (compared case-insensitively).
+// does) and dumped by the real dumpRequest, or served through the real handlerLogger with a capturing
+// logger. Secrets = the values sent under a name of the redaction set (compared case-insensitively).
+// The body READER is part of the input: bodies that end cleanly and bodies that fail with a non-EOF error
+// (body shorter than Content-Length, malformed / cut chunked encoding - both through net/http's own body
+// readers - and a scripted reader failing before / exactly at / after the 10 KiB+1 peek limit, the error
+// returned alone or together with the last bytes).
 
 var vC07RedactLower = map[string]bool{
 	"authorization": true, "cookie": true, "proxy-authorization": true, "set-cookie": true, "x-api-key": true, "x-auth-token": true,
@@ -44,6 +53,106 @@ func vC07Case(r *vRand, s string) string {
 	}
 }
 
+// run-length encoded Gallina byte string (Check/C07.v `rp n u`): coqc parses long list literals slowly
+func vC07Q(s string) string {
+	if len(s) < 96 {
+		return cqBytes(s)
+	}
+	var parts []string
+	lit := 0
+	i := 0
+	for i < len(s) {
+		best, bestP := 0, 0
+		for p := 1; p <= 5 && i+p <= len(s); p++ {
+			j := i + p
+			for j < len(s) && s[j] == s[j-p] {
+				j++
+			}
+			if reps := (j - i) / p; reps >= 16 && reps*p > best {
+				best, bestP = reps*p, p
+			}
+		}
+		if best > 0 {
+			if lit < i {
+				parts = append(parts, cqBytes(s[lit:i]))
+			}
+			parts = append(parts, "rp "+cqZ(int64(best/bestP))+" "+cqBytes(s[i:i+bestP]))
+			i += best
+			lit = i
+		} else {
+			i++
+		}
+	}
+	if lit < len(s) {
+		parts = append(parts, cqBytes(s[lit:]))
+	}
+	if len(parts) == 1 && !strings.HasPrefix(parts[0], "rp ") {
+		return parts[0]
+	}
+	return "(" + strings.Join(parts, " ++ ") + ")"
+}
+
+// scripted body reader: delivers data in chunks of at most maxChunk bytes (never more than the caller's
+// buffer), then ends as `end` says
+const (
+	vC07EndEOF         = 0 // (0, io.EOF) in a call of its own
+	vC07EndEOFWithLast = 1 // io.EOF together with the last bytes
+	vC07EndErr         = 2 // (0, err) in a call of its own
+	vC07EndErrWithLast = 3 // err together with the last bytes
+)
+
+type vC07Body struct {
+	data     []byte
+	pos      int
+	end      int
+	err      error
+	maxChunk int
+}
+
+func (b *vC07Body) final() error {
+	if b.end == vC07EndEOF || b.end == vC07EndEOFWithLast {
+		return io.EOF
+	}
+	return b.err
+}
+
+func (b *vC07Body) Read(p []byte) (int, error) {
+	if len(p) == 0 {
+		return 0, nil
+	}
+	if b.pos == len(b.data) {
+		return 0, b.final()
+	}
+	n := len(b.data) - b.pos
+	if n > len(p) {
+		n = len(p)
+	}
+	if n > b.maxChunk {
+		n = b.maxChunk
+	}
+	copy(p, b.data[b.pos:b.pos+n])
+	b.pos += n
+	if b.pos == len(b.data) && (b.end == vC07EndEOFWithLast || b.end == vC07EndErrWithLast) {
+		return n, b.final()
+	}
+	return n, nil
+}
+
+func (b *vC07Body) Close() error { return nil }
+
+type vC07Log struct{ lines []string }
+
+func (l *vC07Log) Log(_ logger.Level, format string, args ...any) {
+	l.lines = append(l.lines, fmt.Sprintf(format, args...))
+}
+
+func vC07Short(s string) string {
+	if len(s) > 600 {
+		return s[:600] + fmt.Sprintf("...(%d bytes)", len(s))
+	}
+	return s
+}
+
 func TestVerifC07Dump(t *testing.T) {
 	r := vNewRand(vSeed() + 7007)
 	out := vOpenOut()
@@ -52,14 +161,34 @@ func TestVerifC07Dump(t *testing.T) {
 
 	credNames := []string{"Authorization", "Cookie", "Proxy-Authorization", "Set-Cookie", "X-Api-Key", "X-Auth-Token"}
 	otherNames := []string{"Accept", "User-Agent", "X-Custom", "Authorization-Extra", "X-Api-Key2", "Authorization2", "Www-Authenticate",
-		"X-Amz-Security-Token", "Api-Key", "X-Access-Token", "Token", "X-Forwarded-For", "Content-Type", "Cookie2", "X-Auth", "Auth",
-		"x_api_key", "X-Api_Key", "Authorization.", "If-None-Match"}
+		"X-Amz-Security-Token", "Api-Key", "X-Access-Token", "Token", "X-Forwarded-For", "Cookie2", "X-Auth", "Auth",
+		"x_api_key", "X-Api_Key", "Authorization.", "If-None-Match", "Connection", "Upgrade", "Expect", "If-Match", "Origin"}
+	contentTypes := []string{"application/sdp", "application/trickle-ice-sdpfrag", "application/json", "text/plain; charset=utf-8", "application/octet-stream"}
 	schemes := []string{"Basic dXNlcjpwYXNz", "Bearer eyJhbGciOi", "Digest username=\"u\", response=\"", "session=", "", "k-"}
+	readErrs := []error{
+		io.ErrUnexpectedEOF,
+		errors.New("read tcp 127.0.0.1:8889->127.0.0.1:51234: read: connection reset by peer"),
+		&http.MaxBytesError{Limit: 4096},
+		os.ErrDeadlineExceeded,
+		errors.New("http: request body too large"),
+	}
+	units := []string{"x", "v=0\r\n", "ab", "\x00"}
+	// total length of a body made of k copies of a unit, as close as possible to want
+	mkBody := func(want int) string {
+		if want == 0 {
+			return ""
+		}
+		u := vPick(r, units)
+		s := strings.Repeat(u, want/len(u)+1)
+		return s[:want]
+	}
 
 	ndump := n * 3 / 4
+	skipped := 0
 	for i := 0; i < ndump; i++ {
 		method := vPick(r, []string{"GET", "POST", "OPTIONS", "DELETE", "PATCH"})
-		uri := vPick(r, []string{"/", "/stream/whep", "/v3/config/global/get", "/x?jwt=tok&user=u&pass=p", "/a/b/c.m3u8?x=1", "http://host.example/abs", "*"})
+		uri := vPick(r, []string{"/", "/stream/whep", "/stream/whip", "/stream/whip/3fa1c2d4", "/v3/config/global/get", "/v3/config/global/patch",
+			"/x?jwt=tok&user=u&pass=p", "/a/b/c.m3u8?x=1", "http://host.example/abs", "*"})
 		if uri == "*" {
 			method = "OPTIONS"
 		}
@@ -84,27 +213,109 @@ func TestVerifC07Dump(t *testing.T) {
 				fmt.Fprintf(&raw, "%s: visible%x\r\n", name, r.U64()&0xffff)
 			}
 		}
-		body := ""
-		switch r.Intn(8) {
-		case 0:
-			body = strings.Repeat("v=0\r\n", r.Intn(40))
-		case 1:
-			body = strings.Repeat("x", vPick(r, []int{10239, 10240, 10241, 10242, 20000}))
-		case 2:
-			body = "{\"k\":1}"
+		if r.Chance(1, 2) {
+			fmt.Fprintf(&raw, "%s: %s\r\n", vC07Case(r, "Content-Type"), vPick(r, contentTypes))
 		}
-		if body != "" && method != "GET" && method != "OPTIONS" {
-			fmt.Fprintf(&raw, "Content-Length: %d\r\n", len(body))
-		} else {
-			body = ""
-		}
-		raw.WriteString("\r\n")
-		raw.WriteString(body)
 
-		req, err := http.ReadRequest(bufio.NewReader(strings.NewReader(raw.String())))
-		if err != nil {
-			t.Fatalf("net/http refused the generated request: %v\n%q", err, raw.String())
+		// ---- the body and its reader
+		hasBody := method != "GET" && method != "OPTIONS"
+		bodyKind := "none"
+		var scripted *vC07Body
+		if hasBody {
+			switch r.Intn(10) {
+			case 0, 1: // exact Content-Length
+				bodyKind = "content-length"
+				b := mkBody(vPick(r, []int{5, 7, 200, 10239, 10240, 10241, 10242, 20000}))
+				fmt.Fprintf(&raw, "Content-Length: %d\r\n\r\n%s", len(b), b)
+			case 2, 3: // the client announces more than it sends (net/http: io.ErrUnexpectedEOF)
+				bodyKind = "content-length-short"
+				b := mkBody(vPick(r, []int{0, 5, 200, 10239, 10240, 10242, 20000}))
+				fmt.Fprintf(&raw, "Content-Length: %d\r\n\r\n%s", len(b)+vPick(r, []int{1, 100, 100000}), b)
+			case 4: // well-formed chunked body
+				bodyKind = "chunked"
+				raw.WriteString("Transfer-Encoding: chunked\r\n\r\n")
+				for _, sz := range vPick(r, [][]int{{5}, {100, 200}, {10240}, {5120, 5120, 2}, {12000}, {}}) {
+					fmt.Fprintf(&raw, "%x\r\n%s\r\n", sz, mkBody(sz))
+				}
+				raw.WriteString("0\r\n\r\n")
+			case 5, 6: // chunked body that goes wrong after some good chunks (the good bytes never total 10241)
+				bodyKind = "chunked-broken"
+				raw.WriteString("Transfer-Encoding: chunked\r\n\r\n")
+				for _, sz := range vPick(r, [][]int{{}, {5}, {100, 200}, {10240}, {5120, 5000}, {12000}, {10240, 10240}}) {
+					fmt.Fprintf(&raw, "%x\r\n%s\r\n", sz, mkBody(sz))
+				}
+				switch r.Intn(4) {
+				case 0:
+					raw.WriteString("ZZ\r\n") // invalid chunk size
+				case 1:
+					// the stream just stops (no terminating chunk)
+				case 2:
+					raw.WriteString("8\r\nabc") // chunk cut in the middle of its payload
+				case 3:
+					raw.WriteString("3\r\nabcXX5\r\n") // no CRLF after the payload
+				}
+			default: // scripted reader (set after parsing)
+				bodyKind = "scripted"
+				raw.WriteString("\r\n")
+				scripted = &vC07Body{
+					data:     []byte(mkBody(vPick(r, []int{0, 1, 100, 10239, 10240, 10241, 10241, 10242, 20000}))),
+					end:      r.Intn(4),
+					err:      vPick(r, readErrs),
+					maxChunk: vPick(r, []int{1 << 20, 4096, 1000, 512, 100}),
+				}
+			}
+		} else {
+			raw.WriteString("\r\n")
+			if r.Chance(1, 3) { // a body reader on a bodiless method (HTTP/2 allows it; the logger does not look at the method)
+				bodyKind = "scripted"
+				scripted = &vC07Body{
+					data:     []byte(mkBody(vPick(r, []int{0, 3, 10240, 10241, 10242}))),
+					end:      r.Intn(4),
+					err:      vPick(r, readErrs),
+					maxChunk: vPick(r, []int{1 << 20, 512, 7}),
+				}
+			}
 		}
+
+		parse := func() *http.Request {
+			req, err := http.ReadRequest(bufio.NewReader(strings.NewReader(raw.String())))
+			if err != nil {
+				t.Fatalf("net/http refused the generated request: %v\n%q", err, vC07Short(raw.String()))
+			}
+			return req
+		}
+		req := parse()
+
+		// what the body reader delivers and how it ends. For net/http's readers: observed on a second parse of
+		// the same text with io.ReadAll (oracle); for the scripted reader: by construction.
+		var data []byte
+		endTerm, endDesc, errText := "EndEOF", "EOF", ""
+		if scripted != nil {
+			req.Body = scripted
+			data = scripted.data
+			switch scripted.end {
+			case vC07EndEOFWithLast:
+				endDesc = "EOF together with the last bytes"
+			case vC07EndErr:
+				endTerm, endDesc, errText = "EndErr", "error", scripted.err.Error()
+			case vC07EndErrWithLast:
+				endTerm, endDesc, errText = "EndErrWithLast", "error together with the last bytes", scripted.err.Error()
+			}
+		} else {
+			pd, perr := io.ReadAll(parse().Body)
+			data = pd
+			if perr != nil {
+				endTerm, endDesc, errText = "EndErr", "error", perr.Error()
+				if len(pd) == maxRequestBodySizeToLog+1 {
+					// whether net/http returns the error with the last byte is not modelled: not generated
+					skipped++
+					continue
+				}
+			}
+		}
+		fails := (endTerm == "EndErr" && len(data) < maxRequestBodySizeToLog+1) ||
+			(endTerm == "EndErrWithLast" && len(data) <= maxRequestBodySizeToLog+1)
+
 		// the request as the handler sees it
 		host := req.Host
 		if host == "" && req.URL != nil {
@@ -123,39 +334,71 @@ func TestVerifC07Dump(t *testing.T) {
 			return cqPair(cqBytes(k), cqListOf(req.Header[k], func(v string) string { return cqBytes(v) }))
 		})
 		reqTerm := cqApp("mkReq", cqBytes(req.Method), cqBytes(req.RequestURI), cqZ(int64(req.ProtoMajor)), cqZ(int64(req.ProtoMinor)),
-			cqBytes(host), hdr, cqBytes(body))
+			cqBytes(host), hdr, vC07Q(string(data)), endTerm)
 
-		dump := dumpRequest(req)
+		viaLogger := r.Chance(1, 3)
+		var logged []string // everything that reaches the log
+		var coq string
+		kind := "dumpRequest"
+		if viaLogger {
+			kind = "handlerLogger.ServeHTTP"
+			req.RemoteAddr = vPick(r, []string{"127.0.0.1:51234", "[::1]:40000", "192.168.1.7:9"})
+			lg := &vC07Log{}
+			h := &handlerLogger{h: http.HandlerFunc(func(w http.ResponseWriter, _ *http.Request) { w.WriteHeader(http.StatusNoContent) }), log: lg}
+			h.ServeHTTP(httptest.NewRecorder(), req)
+			logged = lg.lines
+			first := ""
+			if len(logged) > 0 {
+				first = logged[0]
+			}
+			coq = cqApp("KLog", reqTerm, cqBytes(req.RemoteAddr), vC07Q(first),
+				cqListOf(logged, func(s string) string { return vC07Q(s) }), cqListOf(secrets, func(s string) string { return cqBytes(s) }))
+		} else {
+			dump := dumpRequest(req)
+			logged = []string{string(dump)}
+			coq = cqApp("KDump", reqTerm, vC07Q(string(dump)), cqListOf(secrets, func(s string) string { return cqBytes(s) }))
+		}
 
 		leaked := 0
 		for _, s := range secrets {
-			if bytes.Contains(dump, []byte(s)) {
-				leaked++
+			for _, l := range logged {
+				if strings.Contains(l, s) {
+					leaked++
+					break
+				}
 			}
 		}
-		class := "dump-no-credential-header"
+		class := "dump-"
+		if viaLogger {
+			class = "log-"
+		}
 		switch {
 		case leaked > 0:
-			class = "dump-LEAK"
+			class += "LEAK"
 		case ncred > 1:
-			class = "dump-several-credential-headers"
+			class += "several-credential-headers"
 		case ncred == 1:
-			class = "dump-one-credential-header"
+			class += "one-credential-header"
+		default:
+			class += "no-credential-header"
 		}
-		if len(body) > 10240 {
+		switch {
+		case fails:
+			class += "-body-read-error"
+		case endTerm != "EndEOF":
+			class += "-body-error-past-cap"
+		case len(data) > maxRequestBodySizeToLog:
 			class += "-truncated-body"
 		}
-		d := string(dump)
-		if len(d) > 600 {
-			d = d[:600] + "..."
+		shown := make([]string, len(logged))
+		for k, l := range logged {
+			shown[k] = vC07Short(l)
 		}
-		rw := raw.String()
-		if len(rw) > 600 {
-			rw = rw[:600] + "..."
-		}
-		out.Case(cqApp("KDump", reqTerm, cqBytes(dump), cqListOf(secrets, func(s string) string { return cqBytes(s) })),
-			map[string]any{"kind": "dumpRequest", "raw": rw, "dump": d, "credential_values": secrets}, class, ncred > 0)
+		out.Case(coq, map[string]any{"kind": kind, "raw": vC07Short(raw.String()), "logged": shown, "credential_values": secrets,
+			"body_reader": map[string]any{"kind": bodyKind, "delivers_bytes": len(data), "first_bytes": vC07Short(string(data[:min(len(data), 20)])),
+				"ends_with": endDesc, "error": errText}}, class, ncred > 0)
 	}
+	out.extra["dump_cases_skipped"] = skipped
 
 	// header name canonicalisation
 	alpha := "abcXYZ-09_!#$%&'*+.^`|~ :()/\x00\xc3"
